@@ -119,6 +119,20 @@ func runSched13(rep *core.Report, tier string) {
 			}
 		}
 	}
+	// one fetch fails while another call is under way
+	type failJob struct {
+		adds []AddCall
+		pkg  string
+	}
+	var failJobs []failJob
+	for _, pr := range [][2]int{{0, 2}, {2, 0}, {0, 1}, {8, 0}, {0, 0}} {
+		adds := []AddCall{menu[pr[0]], menu[pr[1]]}
+		failJobs = append(failJobs, failJob{adds, mustRemote(menu[pr[0]].Addr).Package().String()})
+	}
+	for _, fj := range failJobs {
+		jobs = append(jobs, job{scenario{adds: fj.adds}})
+	}
+	failFrom := len(jobs) - len(failJobs)
 	maxExec := 600
 	if thorough {
 		maxExec = 100000
@@ -133,9 +147,15 @@ func runSched13(rep *core.Report, tier string) {
 		sc := jobs[i].sc
 		c := Closure(sc.world(), sc.adds)
 		args[i] = map[string]any{"world": sc.world(), "adds": sc.adds, "bound": -1, "max_exec": maxExec, "probes": probesFor(c)}
+		if i >= failFrom {
+			args[i]["fail_fetch"] = failJobs[i-failFrom].pkg
+		}
 		return args[i]
 	}, func(i int, r core.Result) {
 		desc := "concurrent Adds: " + jobs[i].sc.String()
+		if i >= failFrom {
+			desc += " with the fetch of " + failJobs[i-failFrom].pkg + " failing"
+		}
 		if r.Hung || r.Crashed || r.Panic != "" {
 			rep.Violation("sourcebundle.Builder/concurrent-add/hang-or-crash", desc+" "+firstLines(r.Stderr+r.Panic, 4), "schedbuild", args[i])
 			return
@@ -367,6 +387,15 @@ func runRacePass(rep *core.Report, kind string, ops []PackStep, sc scenario) {
 			}
 			s2 := scenario{adds: adds, edges: sc.edges}
 			args = append(args, map[string]any{"kind": "build", "world": s2.world(), "adds": adds, "iter": 40})
+		}
+		// ... and with one package's fetch failing while the other calls run
+		for _, set := range [][]int{{0, 2}, {2, 0, 8}} {
+			var adds []AddCall
+			for _, k := range set {
+				adds = append(adds, menu[k])
+			}
+			s2 := scenario{adds: adds}
+			args = append(args, map[string]any{"kind": "build", "world": s2.world(), "adds": adds, "iter": 40, "fail_fetch": mustRemote(menu[set[0]].Addr).Package().String()})
 		}
 	}
 	races := 0
